@@ -4,15 +4,16 @@ Run after every commit to /repo that is made by the verification work (fix: comm
 import ast, json, os, sys
 sys.path.insert(0, os.path.join(os.path.dirname(os.path.abspath(__file__)), ".."))
 os.environ["HSA_NO_CANON"] = "1"
-from hsa import canon
+from hsa import canon, normalize
 from hsa.repo import Repo
 r = Repo(os.environ.get("HSA_REPO", "/repo"))
-tab = {}
+tab = {"__ref__": {}}
 n = 0
 for name, m in sorted(r.modules.items()):
     t = canon.table_of(ast.parse(m.source), name)
     if t:
         tab[name] = t
         n += sum(len(v) for v in t.values())
+    tab["__ref__"][name] = normalize.reference_facts(ast.parse(m.source), name)
 json.dump(tab, open(canon.TABLE, "w"), indent=0, sort_keys=True)
 print("canon.json: %d modules, %d locals" % (len(tab), n))
